@@ -43,6 +43,7 @@ def handle (kv : KV) : String :=
         else if impl.startsWith "ok" then some "success-despite-consumed-fault"
         else some "fault-not-propagated-as-io-error"
       else if impl != free then some "unconsumed-fault-changed-the-result"
+      else if san == "webp" && free.startsWith "err:io" then some "io-error-without-fault"
       else none
     match spec with
     | some w => s!"SPEC {id} which={w} sig=C13:{w}:{e.name} impl={impl} free={free}"
